@@ -422,7 +422,7 @@ func (ex *Exec) evalMods(c *SCtx, mods []*SExpr) []modEntry {
 				}
 			case KSlice:
 				for _, t := range v.Tg {
-					out = append(out, modEntry{obj: t.Loc.Obj, prefix: regionKey(t.Loc) + "[*]", deep: deep, text: m.String()})
+					out = append(out, modEntry{obj: t.Loc.Obj, prefix: regionKey(t.Loc) + "[*]", deep: deep, text: m.String(), ranged: !deep && len(v.Tg) == 1, off: v.Off, n: v.Len})
 				}
 			default:
 				ex.specErr(fmt.Sprintf("modifies: cannot resolve %s", m.String()))
@@ -433,7 +433,7 @@ func (ex *Exec) evalMods(c *SCtx, mods []*SExpr) []modEntry {
 			v := c.eval(e.Args[0])
 			if v.K == KSlice {
 				for _, t := range v.Tg {
-					out = append(out, modEntry{obj: t.Loc.Obj, prefix: regionKey(t.Loc) + "[*]", text: m.String()})
+					out = append(out, modEntry{obj: t.Loc.Obj, prefix: regionKey(t.Loc) + "[*]", text: m.String(), ranged: len(v.Tg) == 1, off: v.Off, n: v.Len})
 				}
 				continue
 			}
@@ -464,7 +464,44 @@ func (ex *Exec) applyMods(st *State, mods []modEntry, why string) {
 			ex.havocReach(st, []*Val{{K: KPtr, Tg: []Target{{G: True, Loc: Loc{Obj: m.obj}}}}}, why)
 			continue
 		}
+		if m.ranged {
+			ex.havocRange(st, m, why)
+			continue
+		}
 		ex.havocPrefix(st, m.obj, m.prefix, why)
+	}
+}
+
+// havocRange havocs the elements [off, off+n) of the regions under the entry's prefix and keeps the rest
+// (frame axiom: elements outside the slice are unchanged).
+func (ex *Exec) havocRange(st *State, m modEntry, why string) {
+	for _, lf := range ex.objLeaves(m.obj) {
+		if !strings.HasPrefix(lf.key, m.prefix) {
+			continue
+		}
+		full := fmt.Sprintf("%d|%s", m.obj.ID, lf.key)
+		old := ex.lookupCell(st, m.obj, lf.key, lf.typ, true)
+		nv := ex.freshArr(lf.typ, nil, why+"."+m.obj.Name+strings.ReplaceAll(lf.key, "[*]", ""))
+		if nv.K != KArray || old.K != KArray || !old.T.Valid() {
+			ex.havocPrefix(st, m.obj, lf.key, why)
+			continue
+		}
+		for _, c := range ex.colls {
+			if m.obj.ID >= c.firstID {
+				continue
+			}
+			if c.written[full] == nil {
+				c.written[full] = &writeRec{loc: Loc{Obj: m.obj}}
+			}
+		}
+		ex.ctr++
+		iv := fmt.Sprintf("i!f%d", ex.ctr)
+		i := Var(iv, BV(64))
+		outside := Or(SLt(i, m.off), SLe(Add(m.off, m.n), i))
+		body := Implies(outside, Eq(Select(nv.T, i), Select(old.T, i)))
+		ex.script = append(ex.script, fmt.Sprintf("(assert (forall ((%s (_ BitVec 64))) (! %s :pattern ((select %s %s)))))", iv, body.S, nv.T.S, iv))
+		ex.cellMeta[full] = cellMeta{obj: m.obj, key: lf.key, typ: lf.typ, region: true}
+		st.cells[full] = nv
 	}
 }
 
